@@ -111,7 +111,8 @@ def eff1(units, R):
                 # climb through casts
                 p = par.get(x['id'])
                 child = x
-                while p is not None and p.get('k') == 'cast':
+                # climb through casts and through the arms of ?: (the default selected when the caller gave none)
+                while p is not None and (p.get('k') == 'cast' or (p.get('k') == 'cond' and p['c'] is not child)):
                     child = p
                     p = par.get(p['id'])
                 ok = False
@@ -169,7 +170,8 @@ def eff1_ir(ir, R):
     n = 0
     for uname, text in ir.items():
         cur = None
-        for ln, line in enumerate(text.split('\n'), 1):
+        lines = text.split('\n')
+        for ln, line in enumerate(lines, 1):
             m = re.match(r'define .*@([\w.]+)\(', line)
             if m:
                 cur = m.group(1)
@@ -202,6 +204,19 @@ def eff1_ir(ir, R):
                 elif ' icmp ' in s:
                     R.ob('EFF1-IR', cur, None, 'IR comparison with @%s' % a, True, 'icmp only',
                          key='ircmp:%s' % a, file=uname, line=0)
+                elif re.match(r'(%[\w.]+) = (phi|select) ', s) and uname == 'cJSON.c':
+                    # a default selected by ?: - every use of the selected value must be a store into the hooks table
+                    res = re.match(r'(%[\w.]+) = ', s).group(1)
+                    uses = []
+                    for l2 in lines[ln:]:
+                        if l2.startswith('}'):
+                            break
+                        if re.search(re.escape(res) + r'\b', l2) and not l2.strip().startswith(res + ' ='):
+                            uses.append(l2.strip())
+                    ok = bool(uses) and all(u2.startswith('store ') and 'internal_hooks' in u2 for u2 in uses)
+                    R.ob('EFF1-IR', cur, None, 'IR selection of @%s as a default' % a, ok,
+                         'the selected value is only stored into the hooks table' if ok else 'selected value used by: %s' % (uses[:1] or ['nothing']),
+                         key='irselect:%s' % a, file=uname, line=0)
                 else:
                     R.ob('EFF1-IR', cur, None, 'IR use of @%s' % a, False, s[:100], key='iruse:%s' % a,
                          file=uname, line=0)
@@ -471,6 +486,25 @@ def eff3(units, R):
                     l = strip_casts(n.expr['l'])
                     if l.get('k') == 'mem' and l['f'] in fieldnames and strip_casts(l['b']).get('n') == gname:
                         r = strip_casts(n.expr['r'])
+                        # `x != NULL ? x : default`: the arm this path selected (its condition was a branch on the way)
+                        while r.get('k') == 'cond':
+                            c = strip_casts(r['c'])
+                            pol = True
+                            while c.get('k') == 'un' and c['op'] == '!':
+                                pol = not pol
+                                c = strip_casts(c['e'])
+                            if c.get('k') == 'bin' and c['op'] in ('==', '!=') and (is_null_const(c['l']) or is_null_const(c['r'])):
+                                other = c['l'] if is_null_const(c['r']) else c['r']
+                                if c['op'] == '==':
+                                    pol = not pol
+                                c = strip_casts(other)
+                            s0 = expr_str(c)
+                            if (s0, 'nonnull') in facts:
+                                r = strip_casts(r['t'] if pol else r['e'])
+                            elif (s0, 'null') in facts:
+                                r = strip_casts(r['e'] if pol else r['t'])
+                            else:
+                                break
                         if r.get('k') == 'ref' and r.get('dk') == 'fn':
                             st[l['f']] = ('libc', r['n'])
                         elif is_null_const(n.expr['r']):
@@ -487,7 +521,13 @@ def eff3(units, R):
                         lhs, rhs = strip_casts(e['l']), strip_casts(e['r'])
                         if is_null_const(rhs) or is_null_const(lhs):
                             other = lhs if is_null_const(rhs) else rhs
-                            facts.append((expr_str(other), 'null' if eq else 'nonnull'))
+                            fact = (expr_str(other), 'null' if eq else 'nonnull')
+                            if (fact[0], 'nonnull' if eq else 'null') in facts and strip_casts(other).get('k') in ('ref', 'mem') and \
+                                    not (strip_casts(other).get('k') == 'mem' and strip_casts(other)['f'] in fieldnames):
+                                # the same caller-supplied value tested both ways on one path: not a path
+                                feasible = False
+                                break
+                            facts.append(fact)
                         else:
                             # member of the table compared with a libc function
                             m, f = (lhs, rhs) if lhs.get('k') == 'mem' else (rhs, lhs)
